@@ -37,6 +37,7 @@ func init() {
 		Rule: "E2: every unordered pair of 17 API calls (LookupPath, LookupPath with optional / any-string / any-index selectors, Fields iteration with Selector, List, Unify, FillPath, Validate, Validate(Concrete), Default, Syntax+format, Decode into struct / map, MarshalJSON, yaml.Encode, Subsume, CompileString on the same and on a second context) on each of 9 shared values, every schedule with <=2 deviations at the synchronisation points of the instrumented files (label index, import and type caches, decode field cache, convert cache, context generation counter, weak map, token.File); triples from a 6-call core (thorough). Race pass: the same pairs on real goroutines under the race detector. " +
 			"Non-trivial = scenarios with >=2 schedules and a call that takes the slow path of the label index (fresh labels per execution).",
 		Assumptions: []string{"scheduling points are the synchronisation operations of the instrumented files; plain memory accesses inside the evaluator are not interleaved by the explorer but are monitored by the race detector in the race pass (happens-before based, sound for the executed paths)",
+			"a run of read-locked sections of one thread on one lock is explored as one block (sched.CoalesceReads): the number of label look-ups of the evaluator's field sorter depends on Go's map iteration order, which the harness does not own",
 			"the race pass needs the binary built with -race (lib/build.sh does); without it the pass is reported as skipped and the run is not exhaustive"},
 		Run: run, Replay: replay,
 		RequireOutcomes: []string{"pair:ok"},
